@@ -52,9 +52,6 @@ pub struct TIn {
 }
 
 impl TIn {
-    pub fn numel(&self) -> usize {
-        self.shape.iter().product()
-    }
     /// Float graph input / initializer filled with small exact values.
     pub fn f32(name: &str, shape: &[usize]) -> TIn {
         let n: usize = shape.iter().product();
